@@ -3,8 +3,8 @@ import os
 from vlib.core import MachineryError
 
 FAMILIES_ALL = ["versions", "member_self", "member_restricted", "member_other", "member_tpi", "structure",
-                "generic", "create", "pl0", "pl1", "pl2", "pl3"]
-FAMILIES_PL = ["versions", "pl0", "pl1", "pl2", "pl3"]
+                "generic", "create", "pl0", "pl1", "pl2", "pl3", "plnames"]
+FAMILIES_PL = ["versions", "pl0", "pl1", "pl2", "pl3", "plnames"]
 
 INVS = "AcceptedImpliesNoEsc BannedNeverPasses NoCreateNoPass MixedNeverPass OnlyNeededState Emit"
 
@@ -17,7 +17,7 @@ def cfg_text(family, versions, pldepth):
 def gen_family(ctx, family, workers=None):
     versions = "VersionsQuick" if ctx.tier == "quick" else "VersionsAll"
     pldepth = "small"
-    if family == "pl2" and ctx.tier == "quick":
+    if family in ("pl2", "plnames") and ctx.tier == "quick":
         versions = "VersionsPL2Quick"
     d = ctx._spec_dir()
     cfg = "Auth_gen_%s_%s.cfg" % (family, ctx.tier)
